@@ -24,6 +24,9 @@ pub struct Case {
     /// that field plays no part in choosing the framing
     #[serde(default)]
     pub conn_close: bool,
+    /// the status line says HTTP/1.0 (the rules of section 6.3 do not depend on the version token)
+    #[serde(default)]
+    pub http10: bool,
 }
 
 #[derive(Clone, Debug, PartialEq, Eq)]
@@ -114,7 +117,7 @@ fn write_te(w: &mut Vec<u8>, te: &str) {
 }
 
 fn wire(c: &Case) -> Vec<u8> {
-    let mut w = format!("HTTP/1.1 {} X\r\n", c.status).into_bytes();
+    let mut w = format!("HTTP/{} {} X\r\n", if c.http10 { "1.0" } else { "1.1" }, c.status).into_bytes();
     if c.location {
         w.extend_from_slice(b"Location: http://h.test/elsewhere\r\n");
     }
@@ -161,6 +164,7 @@ fn run(c: &Case) -> Observed {
         write_max: None,
         repeat: None,
         repeat_cap: 0,
+        write_fail_at: None,
     };
     let _w = World::single(script, false);
     let method = http::Method::from_bytes(c.method.as_bytes()).unwrap();
@@ -280,6 +284,9 @@ pub fn c03(ctx: &Ctx) -> Report {
         vec!["5", "10\u{1}"],
         vec!["10\u{1}", "5"],
         vec!["5", "+5"],
+        vec!["05"],
+        vec!["00"],
+        vec!["0005", "0005"],
         vec!["5", "5", "5", "6"],
         vec!["5", "5", "5", "5", "6"],
     ];
@@ -324,6 +331,7 @@ pub fn c03(ctx: &Ctx) -> Report {
                         byte_reads: false,
                         location: false,
                         conn_close: false,
+                        http10: false,
                     };
                     for byte_reads in [false, true] {
                         for uniform in [None, Some(1usize)] {
@@ -337,6 +345,15 @@ pub fn c03(ctx: &Ctx) -> Report {
                     {
                         let mut c = base.clone();
                         c.conn_close = true;
+                        cases.push(c.clone());
+                        c.byte_reads = true;
+                        c.uniform = Some(1);
+                        cases.push(c);
+                    }
+                    // nor on the version token of the status line
+                    {
+                        let mut c = base.clone();
+                        c.http10 = true;
                         cases.push(c.clone());
                         c.byte_reads = true;
                         c.uniform = Some(1);
